@@ -180,6 +180,16 @@ def transition(a, b_):
     return (1 if fin else 0) | (2 if ini else 0) | (4 if ini != fin else 0)
 
 
+def twin(c):
+    from bounded import gen_circuits as G
+    d = G.describe(c)
+    n = len(d['nodes'])
+    d2 = {'nodes': list(reversed(d['nodes'])), 'lines': [(n - 1 - a, ap, n - 1 - r, rp) for a, ap, r, rp in reversed(d['lines'])], 'io': [n - 1 - i for i in reversed(d['io'])]}
+    t = G.build(d2)
+    t.name = c.name
+    return t
+
+
 def check(c, chains, pi_group, po_group, pats, ffs, clk, text):
     from kyupy import stil
     out = []
@@ -187,6 +197,13 @@ def check(c, chains, pi_group, po_group, pats, ffs, clk, text):
         sf = stil.parse(text)
     except Exception as e:  # noqa
         return [('parse:exception', repr(e))]
+    # the same StilFile object is first applied to a twin of the circuit (same name, same numbers of ports / nodes, every order reversed): what it
+    # returns for ``c`` afterwards must depend on ``c`` only
+    try:
+        tw = twin(c)
+        sf.tests(tw), sf.responses(tw), sf.tests_loc(tw)
+    except Exception:  # noqa
+        pass
     sn = evaln.s_nodes(c)
     pos = {n.name: i for i, n in enumerate(sn)}
     npat = len(pats)
@@ -265,7 +282,7 @@ def part(tier, seed):
                     'seeded scan circuits (1-7 scan flip-flops in 1-3 chains of random order, in half of the cases re-indexed by removing earlier cells, 0-3 inversion markers at random places incl. chain ends, shuffled ports and '
                     'signal groups) x pattern sets (1-4 patterns; loads over 0/1/X, unloads over L/H/X, PI over 0/1/N, PO over L/H/X; static capture or launch+capture calls, each independently with '
                     'and without clock pulses): tests() / responses() equal the intended value at every flip-flop (chain order: first shifted bit = cell nearest scan-out; '
-                    'inversions between scan-in resp. scan-out and the cell) and port (signal-group order), rows in port/state order; tests_loc() combines loaded and next state; '
+                    'inversions between scan-in resp. scan-out and the cell) and port (signal-group order), rows in port/state order; tests_loc() combines loaded and next state; the StilFile object has been applied to a twin circuit (same name and sizes, reversed orders) before; '
                     'distinct = case seed; non-trivial = some chain has a marker', f'{150 if tier == "quick" else 3000} cases')
     for k in range(150 if tier == 'quick' else 3000):
         cs = sseed((seed, 'stil', k))
